@@ -3,6 +3,8 @@ pub mod gen;
 pub mod spec;
 
 pub mod c01;
+pub mod c04;
+pub mod c20;
 
 use crate::core::Stats;
 
@@ -15,5 +17,9 @@ pub struct Monitor {
 }
 
 pub fn monitors() -> Vec<Monitor> {
-    vec![Monitor { id: "C01", case: c01::case, exhaustive: None }]
+    vec![
+        Monitor { id: "C01", case: c01::case, exhaustive: None },
+        Monitor { id: "C04", case: c04::case, exhaustive: Some(c04::exhaustive) },
+        Monitor { id: "C20", case: c20::case, exhaustive: Some(c20::exhaustive) },
+    ]
 }
